@@ -2,6 +2,15 @@
 """tools/seed_table.py: the table of seeded changes for DESIGN.md section 0.5, from seeded/*/meta.json."""
 import json, os, re
 NOTES = {
+ 'C11-8': 'missed -> MultiPort over device doubles that take several messages in and close themselves inside one poll',
+ 'C05-7': 'missed -> chunks are also fed as one-shot iterators and generators',
+ 'C04-7': 'missed -> the parsed messages are modified by their consumer and the same bytes parsed again (aliasing)',
+ 'C09-7': 'missed -> sequencer_specific payload given as iterator / generator / chain / map (constructor, assignment, copy)',
+ 'C03-7': 'missed -> delattr / setattr of the special names (__dict__, __class__, ...)',
+ 'C03-8': 'missed -> the type given as a status byte, a number, None, bytes ... (constructor, from_dict, copy, assignment)',
+ 'C02-8': 'missed -> from_hex with separators that are special in regular expressions / character classes / format strings',
+ 'C06-9': 'missed -> resynchronisation with a very long sysex as the message (65 534 .. 70 000 data bytes)',
+ 'C06-10': 'missed -> the stream given as iterator / generator / chain / map',
  'C02-5': 'caught; harmless for C02 since repair d49b480 (from_bytes type-checks every item first; demo passes at HEAD), now caught by the C03 check instead (integral floats inside sysex data)',
  'C04-5': 'missed -> the parser is also read by get_message() until None, by a loop left early and resumed, and byte-wise',
  'C04-6': 'missed -> sysex messages of 65 534 .. 70 000 data bytes (implementation against the statement)',
